@@ -674,12 +674,51 @@ impl Gen {
                 let owner = self.owner_of(r);
                 let el = self.elig_in(r);
                 let ind = self.ind(r);
-                if self.rng.chance(1, 2) {
-                    // known finding F19: resolution function of a subtype indication
+                if self.rng.chance(2, 3) {
+                    // resolution indication of a subtype indication (F19, fixed by 1936e4b): function name,
+                    // array element resolution `(f) arr`, record element resolution `(elem f) rec`
                     let s = self.ent("rs", "type", owner, None, el);
-                    let txt = format!("{}subtype {} is {} integer;\n", ind, self.d(s), self.r(f, "resolution_function"));
+                    let (site, txt) = match self.rng.below(3) {
+                        0 => ("resolution_function", format!("{}subtype {} is {} integer;\n", ind, self.d(s), self.r(f, "resolution_function"))),
+                        1 => {
+                            let at = self.ent("rat", "type", owner, None, el);
+                            (
+                                "resolution_function_array_element",
+                                format!(
+                                    "{}type {} is array (0 to 3) of integer;\n{}subtype {} is ({}) {};\n",
+                                    ind,
+                                    self.d(at),
+                                    ind,
+                                    self.d(s),
+                                    self.r(f, "resolution_function_array_element"),
+                                    self.r(at, "subtype_def_mark")
+                                ),
+                            )
+                        }
+                        _ => {
+                            let rt = self.ent("rrt", "type", owner, None, el);
+                            let fe = self.ent("fe", "elem", Some(rt), None, false);
+                            // the element name inside the resolution indication is a plain identifier (no reference)
+                            (
+                                "resolution_function_record_element",
+                                format!(
+                                    "{}type {} is record\n{}  {} : integer;\n{}end record;\n{}subtype {} is ({} {}) {};\n",
+                                    ind,
+                                    self.d(rt),
+                                    ind,
+                                    self.d(fe),
+                                    ind,
+                                    ind,
+                                    self.d(s),
+                                    self.raw(fe),
+                                    self.r(f, "resolution_function_record_element"),
+                                    self.r(rt, "subtype_def_mark")
+                                ),
+                            )
+                        }
+                    };
                     self.decl(r, txt);
-                    self.site_stats.push("resolution_function".into());
+                    self.site_stats.push(site.into());
                     true
                 } else {
                     let e = move |g: &Gen, s: &str| format!("{}((1, 2))", g.r(f, s));
@@ -833,7 +872,7 @@ impl Gen {
                 true
             }
             1 if self.has_conc(r) => {
-                // known finding F18: reject time of the delay mechanism
+                // reject time of the delay mechanism (F18, fixed by 1936e4b)
                 let k = self.conc_sink(r);
                 let t = format!("  {} <= reject {} inertial 1 after 5 ns;\n", self.r(k, "sink_target"), self.r(o, "delay_mechanism_reject"));
                 self.body(r, t);
